@@ -22,6 +22,10 @@ def run(ctx: Context) -> None:
     ctx.rule('R18.3', "the transect dataset's distance bounds and linear indexes iterate the same, unfiltered segment list in order", floor=4)
     ctx.rule('R18.4', "data prepared for plotting: the variable is flattened with the convention's ravel, depth and index moved last in that order, the index dimension selected positionally with the segments' linear indexes; the patches nest depth (outer) then segment (inner), matching a row-major flatten of (depth, index)", floor=6)
     ctx.rule('R18.5', "distance along the path: a point's distance is the cumulative distance of the last path vertex not after it plus the distance from that vertex; path vertices accumulate distance from their predecessor", floor=4)
+    ctx.rule('R18.6', "the values paired with the segments are flattened in the convention's own index order whatever order the variable stores its dimensions in (facts shared with C03 R03.1)", floor=8)
+    from . import c03 as _c03
+    from .common import share_obligations as _share
+    _share(ctx, _c03, {'R03.1'}, 'R18.6')
     ctx.assume("NOT decided: segment geometry (inside the cell, lengths adding up) and metre distances: GEOS / cartopy at run time")
 
     seg = ctx.func(f"{TR}.segments")
